@@ -30,7 +30,12 @@ partial def trefOfTy (g : GSpec) : CTy → TRef
 def mkField (name : String) (ty : TRef) : Field := { doc := [], attrs := [], tag := none, name := name, ty := ty }
 
 def defOfNode (g : GSpec) (i : Nat) (nd : NSpec) : Def :=
-  let fs := nd.fields.zipIdx.map fun (t, k) => mkField ("f" ++ toString k) (trefOfTy g t)
+  -- every other optional field is written as a tagged field (`tag(k) fk: T?`): tags do not take a field out of the containment graph
+  let fs := nd.fields.zipIdx.map fun (t, k) =>
+    let f := mkField ("f" ++ toString k) (trefOfTy g t)
+    match t with
+    | .opt _ => if (i + k) % 2 == 0 then { f with tag := some ⟨false, 10, k, false⟩ } else f
+    | _ => f
   if nd.isEnum then
     .enum [] [] false false (nodeName g i) none
       ((fs.zipIdx.map fun (f, k) => { doc := [], attrs := [], name := "X" ++ toString k, fields := some [f], value := none : Enumerator }) ++
